@@ -159,7 +159,8 @@ def check(case):
             "classes": ["relation:" + case["relation"], "deform:%s" % ("default" if case["deform"] is None else
                                                                        "".join(map(str, sorted(case["deform"])))),
                         "ignore_h" if case["ignore_h"] else "keep_h", "restraints" if surv else "no-restraints",
-                        "deformed" if deformed else "rigid", "second-round" if second else "single-round"],
+                        "deformed" if deformed else "rigid", "second-round" if second else "single-round",
+                        "collinear-neighbours" if case.get("degenerate_mobile") else "generic-mobile"],
             "sample": {"relation": case["relation"], "n_start": len(s0), "n_end": len(e0), "deform": case["deform"],
                        "ignore_h": case["ignore_h"], "restr": case["restr"], "steps": case["steps"], "seed": case["seed"]}}
 
@@ -213,6 +214,6 @@ def check_shipped(case):
 SUBCHECKS = [
     Sub("generated", check, strategy=lambda tier: case_strategy(tier), quick=500, thorough=8000,
         min_share={"relation:start-smaller": 0.2, "relation:equal": 0.1, "relation:start-larger": 0.1,
-                   "deformed": 0.15}),
+                   "deformed": 0.15, "collinear-neighbours": 0.04}),
     Sub("shipped", check_shipped, enumerate=shipped_cases, note="shipped molecule pairs in both directions"),
 ]
